@@ -125,9 +125,14 @@ func runC16(c *Check) {
 									sc.Typ = k
 								}
 							case fHash:
-								sc.Key = "hash"
+								if !isEmptyValue(st.Val) {
+									sc.Key = "hash"
+								}
 							case fHeight:
-								sc.Key = "height"
+								// an explicit zero is the field's zero value: not a key
+								if k, isC := constInt(st.Val); !(isC && k == 0) && sc.Key != "hash" {
+									sc.Key = "height"
+								}
 							case fResp:
 								sc.Chan = st.Val
 							}
@@ -476,6 +481,7 @@ func runC16(c *Check) {
 
 	c.ruleRouterPairing(fRequests, fResp)
 	c.ruleIndexBoundOnSameIndex("R7", "client.(*RemoteClient).GetOutputs")
+	c.ruleSpliceRemovesOne("R11", 10, "client")
 	c.ruleRemoveByIdentity("R6", fRequests, c.P.Field("client", "RemoteClient", "removeRequestsChannel"))
 
 	// ---- R6 ownership of the pending list
